@@ -232,6 +232,9 @@ fn part_a(ctx: &Ctx, r: &mut Report) {
             let out = op.run(&relations);
             transitions += 1;
             r.evaluations += 1;
+            if r.samples.is_empty() && path.len() >= 2 && i == 0 {
+                r.sample(json!({"history": path.iter().map(|p| pol[*p].id()).collect::<Vec<_>>(), "counter_state": format!("{:?}", snap).chars().take(300).collect::<String>(), "then": op.id(), "output_equals_output_from_initial_state": out == baseline[i], "output_bytes": out.len()}));
+            }
             if out != baseline[i] {
                 flagged.insert(i);
                 let mut d = diff_summary(&baseline[i], &out);
@@ -547,7 +550,6 @@ pub fn run(ctx: &Ctx) -> Report {
     part_a(ctx, &mut r);
     part_b(ctx, &mut r);
     part_c(ctx, &mut r);
-    r.sample(json!({"history": ["compile :: SELECT random() AS r, id FROM users", "dp-rewrite :: SELECT count(*) AS c FROM users"], "then": "compile :: SELECT age + 1 AS a1 FROM users", "must_equal": "its output from the initial state"}));
     r.rule = "(a) explicit-state BFS over the global name-counter: transitions = 6 counter-touching operations (random(), unnamed VALUES, row-privacy PUP, three DP rewritings), states = counter snapshots (H1 snapshot/restore, restore validated by replaying histories) to depth 2 (thorough 3); in every reachable state every operation of the alphabet (compile+render of the E-sql queries, duplicate-name / HAVING / random() queries, PUP and DP rewritings) gives the output it gives from the initial state, rendering twice is identical, and from the same state a repeated run gives the same output. (b) two (three) threads running short sequences of namer operations / compilations under a cooperative scheduler at the H1 scheduling point, all interleavings up to the preemption bound: ids distinct and dense, compile output independent of the schedule. (c) render -> parse -> render: same schema, same SQLite results. non-trivial = counter states + schedule outcomes + re-parsed queries".into();
     r.assumptions = vec![
         "interleavings are explored at the granularity of the crate's only lock (namer::count); memory-model effects below that are outside this check".into(),
